@@ -188,6 +188,88 @@ def main(chk):
         bad.append(f'input gradient {got["in"][0]}, expected the custom rule {10.0 * (2 * cfg["z"] + 3)}')
     for b in bad[:2]:
       chk.violation(key, b, case)
+  # ---- lifting filters spelled out: nn.vjp(variables=[...all collections...]) with a stochastic forward pass sees the same key
+  for mode in ('vjp', 'jvp', 'value_and_grad'):
+    key = f'C07:explicit-variables-filter:{mode}'
+    variables = {**base_vars, 'st': {'Inner_0': {'cnt': jnp.asarray(10.0)}}}
+    x, z, ct = jnp.asarray(5.0), jnp.asarray(7.0), jnp.asarray(1.0)
+    rngs = {'drop': jax.random.key(9), 'params': jax.random.key(3)}
+
+    class OuterF(nn.Module):
+      explicit: bool = False
+
+      @nn.compact
+      def __call__(self, x):
+        inner = Inner(rng=True, name='Inner_0')
+        kw = {'variables': ['params', 'consts', 'st']} if self.explicit else {}
+        f = lambda m, a: m(a, jnp.asarray(7.0))
+        if mode == 'vjp':
+          y, bwd = nn.vjp(f, inner, x, vjp_variables=['params'], **kw)
+          return y, bwd(jnp.asarray(1.0))[1]
+        if mode == 'jvp':
+          return nn.jvp(f, inner, (x,), (jnp.asarray(1.0),), {'params': {'p': jnp.asarray(1.0)}}, **kw)
+        return nn.value_and_grad(f, inner, x, **kw)
+    chk.count(key)
+    try:
+      a, _ = OuterF(explicit=False).apply(variables, x, mutable=['st'], rngs=rngs)
+      b, _ = OuterF(explicit=True).apply(variables, x, mutable=['st'], rngs=rngs)
+      if any(float(u) != float(v) for u, v in zip(jax.tree_util.tree_leaves(a), jax.tree_util.tree_leaves(b))):
+        chk.violation(key, f'nn.{mode} with variables=[params, consts, st] spelled out gives {jax.tree_util.tree_leaves(b)}, with the default filter '
+                           f'{jax.tree_util.tree_leaves(a)} (the stochastic forward pass must see the same rng stream)', {})
+    except Exception as e:
+      chk.violation(key, f'raised {type(e).__name__}: {str(e)[:200]}', {})
+  # ---- custom_vjp: without differentiation the value is that of the original function, whatever the forward rule returns
+  class OuterC(nn.Module):
+    @nn.compact
+    def __call__(self, x):
+      inner = Inner(name='Inner_0')
+      f = lambda m, a: m(a, jnp.asarray(7.0))
+
+      def fwd(m, a):
+        y, vjp_fn = nn.vjp(f, m, a, vjp_variables=['params'])
+        return y + 1000.0, vjp_fn            # a forward rule whose primal differs from fn's
+
+      def bwd(vjp_fn, y_t):
+        vt, *it = vjp_fn(y_t)
+        return (vt, *it)
+      return nn.custom_vjp(f, forward_fn=fwd, backward_fn=bwd, grad_vars=['params'])(inner, x)
+  chk.count('C07:custom_vjp:forward-value')
+  try:
+    variables = {**base_vars, 'st': {'Inner_0': {'cnt': jnp.asarray(10.0)}}}
+    y, _ = OuterC().apply(variables, jnp.asarray(5.0), mutable=['st'])
+    yj, _ = jax.jit(lambda v, a: OuterC().apply(v, a, mutable=['st']))(variables, jnp.asarray(5.0))
+    want = 2.0 * 5 * 7 + 3 * 5 + 11
+    if float(y) != want or float(yj) != want:
+      chk.violation('C07:custom_vjp:forward-value', f'undifferentiated call of a custom_vjp function returns {float(y)} (jit: {float(yj)}), the original '
+                                                    f'function gives {want} (the forward rule adds 1000 to its primal)', {})
+  except Exception as e:
+    chk.violation('C07:custom_vjp:forward-value', f'raised {type(e).__name__}: {str(e)[:200]}', {})
+  # ---- two lifted calls inside one compact method, each creating an auto-named submodule on the lifted module
+  class OuterT(nn.Module):
+    @nn.compact
+    def __call__(self, x):
+      def head(mdl, a):
+        return Inner()(a, jnp.asarray(7.0))          # auto-named: Inner_0 for the first call, Inner_1 for the second
+      y0, b0 = nn.vjp(head, self, x, vjp_variables=['params'])
+      y1, b1 = nn.vjp(head, self, x, vjp_variables=['params'])
+      return (y0, b0(jnp.asarray(1.0))), (y1, b1(jnp.asarray(1.0)))
+  chk.count('C07:two-lifted-calls')
+  try:
+    two = {'params': {'Inner_0': {'p': jnp.asarray(2.0)}, 'Inner_1': {'p': jnp.asarray(4.0)}},
+           'consts': {'Inner_0': {'q': jnp.asarray(3.0)}, 'Inner_1': {'q': jnp.asarray(5.0)}},
+           'st': {'Inner_0': {'cnt': jnp.asarray(10.0)}, 'Inner_1': {'cnt': jnp.asarray(20.0)}}}
+    ((y0, (v0, gx0)), (y1, (v1, gx1))), _ = OuterT().apply(two, jnp.asarray(5.0), mutable=['st'])
+    want = [(2.0 * 35 + 15 + 11, 2.0 * 7 + 3), (4.0 * 35 + 25 + 21, 4.0 * 7 + 5)]
+    got = [(float(y0), float(gx0)), (float(y1), float(gx1))]
+    gp = [float(v0['params'].get('Inner_0', {'p': 0.0})['p']), float(v1['params'].get('Inner_1', {'p': 0.0})['p'])]
+    if got != want or gp != [35.0, 35.0]:
+      chk.violation('C07:two-lifted-calls', f'two nn.vjp calls in one compact method, each creating an auto-named submodule: (primal, input cotangent) '
+                                            f'{got}, parameter cotangents {gp}; jax.vjp of the pure functions of Inner_0 / Inner_1: {want}, [35, 35]', {})
+    iv = OuterT().init(jax.random.key(0), jnp.asarray(5.0))
+    if sorted(iv['params']) != ['Inner_0', 'Inner_1']:
+      chk.violation('C07:two-lifted-calls', f'init created {sorted(iv["params"])}, expected Inner_0 and Inner_1', {})
+  except Exception as e:
+    chk.violation('C07:two-lifted-calls', f'raised {type(e).__name__}: {str(e)[:200]}', {})
   # ---- the same routing with low-precision inputs / parameters (every input dtype): values chosen exactly representable
   for dt in (jnp.bfloat16, jnp.float16):
     for mode in ('grad', 'value_and_grad', 'vjp'):
